@@ -91,3 +91,7 @@ Definition pair_swapb (p1 p2 : plan) : bool :=
 (* the user data an honest member reports after receiving [p] at generation [g] *)
 Definition report (p : plan) (g : Z) (m : member) : member :=
   {| m_id := m_id m; m_topics := m_topics m; m_ud := UD (holds p (m_id m)) (Some g) |}.
+
+(* two partitions of one topic exchanged owners between the plans p and p' *)
+Definition pair_swap (p p' : plan) : Prop :=
+  exists t q1 q2 a b, a <> b /\ In (t, q1) (holds p a) /\ In (t, q1) (holds p' b) /\ In (t, q2) (holds p b) /\ In (t, q2) (holds p' a).
